@@ -202,6 +202,9 @@ class StatePathBuilder(PathExprBuilder):
                 elif nm == "extend_from_slice" and a:
                     out.append(("eq", P("len", i + 1), ("bin", "Add", P("len", i), ("call", "core::slice::<impl [T]>::len", (a[0],)))))
                     out.append(("le", P("capacity", i), P("capacity", i + 1)))
+                elif nm == "resize" and a:
+                    out.append(("eq", P("len", i + 1), a[0]))
+                    out.append(("le", P("capacity", i), P("capacity", i + 1)))
                 elif nm in ("truncate", "clear"):
                     out.append(("le", P("len", i + 1), P("len", i)))
                     out.append(("eq", P("capacity", i + 1), P("capacity", i)))
